@@ -11,6 +11,8 @@ def claim(pid, technique, text, note, ref):
     CLAIMED[pid] = (technique, text, note, ref)
 
 exec(open(os.path.join(ROOT, "tools", "claims.py")).read())
+for _p in list(NOT_YET):
+    CLAIMED.pop(_p, None)  # a property listed as not-yet is never claimed
 
 checks = []
 for pid in sorted(CLAIMED):
